@@ -5,7 +5,11 @@ namespace Paho.Driver
 open Paho Paho.LF
 
 def parseDisc (w : String) : DiscAt :=
-  { inConnectFail := w.contains 'f', inOnConnect := w.contains 'c', inOnDisconnect := w.contains 'd', inWait := w.contains 'w' }
+  { inConnectFail := w.contains 'f', inOnConnect := w.contains 'c', inOnDisconnect := w.contains 'd', inWait := w.contains 'w',
+    -- `s<code>` at the end: the server ends the connection with DISCONNECT(code)
+    srvDisc := match w.splitOn "s" with
+      | [_, n] => n.toNat?
+      | _ => none }
 
 def parseOutcome (w : String) : Option Outcome :=
   match w.splitOn ":" with
